@@ -12,6 +12,12 @@ _PYOPS = {ast.Add: _op.add, ast.Sub: _op.sub, ast.Mult: _op.mul, ast.Div: _op.tr
 _PYCMP = {ast.Eq: _op.eq, ast.NotEq: _op.ne, ast.Lt: _op.lt, ast.LtE: _op.le, ast.Gt: _op.gt, ast.GtE: _op.ge}
 
 RNE = z3.RNE()
+
+
+def _fpnum(t):
+    import struct
+    bv = z3.simplify(z3.fpToIEEEBV(t))
+    return struct.unpack(">d", bv.as_long().to_bytes(8, "big"))[0]
 RTZ = z3.RTZ()
 F64 = z3.Float64()
 
@@ -113,6 +119,8 @@ class Arith:
                 self.assumptions.append(z3.fpGEQ(t, z3.FPVal(lo, F64)))
             if hi is not None:
                 self.assumptions.append(z3.fpLEQ(t, z3.FPVal(hi, F64)))
+            if lo is not None and hi is not None:
+                self.rbound[t.get_id()] = float(max(abs(lo), abs(hi)))
             return t
         t = z3.Real(name)
         if lo is not None:
@@ -162,6 +170,8 @@ class Arith:
             v = self.num(v)
         if self.is_float_term(v):
             return v
+        if isinstance(v, z3.BitVecRef) and self.fmode == "fp":
+            return z3.fpSignedToFP(RNE, v, F64)
         if isinstance(v, z3.BitVecRef):
             r = z3.ToReal(self.bv2int(v))
         elif isinstance(v, z3.ArithRef) and v.is_int():
@@ -185,6 +195,13 @@ class Arith:
     def float_to_int(self, v):
         """python int(float): truncation toward zero, returns int-sort term"""
         if isinstance(v, z3.FPRef):
+            if self.mode == "bv":
+                # pure QF_BVFP; the magnitude of the result follows from the tracked bound of the float term
+                t = z3.fpToSBV(RTZ, v, z3.BitVecSort(self.W))
+                b = self.rbound.get(v.get_id())
+                if b is not None and b < 2.0 ** (self.W - 3):
+                    self.mag[t.get_id()] = int(b + 1).bit_length()
+                return t
             r = z3.fpToReal(z3.fpRoundToIntegral(RTZ, v))
             i = z3.ToInt(r)
         else:
@@ -539,12 +556,13 @@ class Arith:
     def binop_float(self, t, a, b, pc):
         x, y = self.to_float(a), self.to_float(b)
         if self.fmode == "fp":
+            bx, by = self._fb(x), self._fb(y)
             if t is ast.Add:
-                return z3.fpAdd(RNE, x, y)
+                return self._setrb(z3.fpAdd(RNE, x, y), None if bx is None or by is None else (bx + by) * 1.0000001)
             if t is ast.Sub:
-                return z3.fpSub(RNE, x, y)
+                return self._setrb(z3.fpSub(RNE, x, y), None if bx is None or by is None else (bx + by) * 1.0000001)
             if t is ast.Mult:
-                return z3.fpMul(RNE, x, y)
+                return self._setrb(z3.fpMul(RNE, x, y), None if bx is None or by is None else bx * by * 1.0000001)
             if t is ast.Div:
                 if self.pybool(z3.fpIsZero(y)) is not False:
                     self.raises.append((z3.And(pc, z3.fpIsZero(y)), ZeroDivisionError))
@@ -585,6 +603,15 @@ class Arith:
             return self.fsqrt(x, pc)
         raise Unsupported(f"float binop {t.__name__}")
 
+    def _fb(self, t):
+        """upper bound on |value| of a Float64 term (constants exactly, variables/products by propagation)"""
+        if isinstance(t, z3.FPNumRef):
+            try:
+                return abs(float(t.as_string().split('*')[0])) if False else abs(_fpnum(t))
+            except Exception:
+                return None
+        return self.rbound.get(t.get_id())
+
     def _const_val(self, t):
         if isinstance(t, z3.RatNumRef):
             return t.numerator_as_long() / t.denominator_as_long()
@@ -614,6 +641,18 @@ class Arith:
     def cmp_num(self, t, a, b):
         if not self.is_sym(a) and not self.is_sym(b):
             return _PYCMP[t](a, b)
+        # comparison of a (finite) symbolic number with +-infinity is decided by the constant
+        for x, other_first in ((b, True), (a, False)):
+            if isinstance(x, float) and x in (float("inf"), float("-inf")):
+                big = x > 0
+                if t is ast.Eq:
+                    return False
+                if t is ast.NotEq:
+                    return True
+                less = t in (ast.Lt, ast.LtE)          # a < b / a <= b
+                if other_first:                        # sym (op) inf
+                    return less if big else not less
+                return (not less) if big else less     # inf (op) sym
         if isinstance(a, (bool, z3.BoolRef)) and isinstance(b, (bool, z3.BoolRef)) and t in (ast.Eq, ast.NotEq):
             r = self.to_bool(a) == self.to_bool(b)
             return r if t is ast.Eq else z3.Not(r)
@@ -626,6 +665,11 @@ class Arith:
                 return self.cmp_num(t, ia, ib)
             # comparisons between an int and a float are exact in python: compare as reals
             x = y = None
+            # binary64 term against a python number that a double represents exactly: stay inside the FP theory
+            if self.fmode == "fp" and (isinstance(a, z3.FPRef) or isinstance(b, z3.FPRef)):
+                for v in (a, b):
+                    if isinstance(v, (int, float)) and not isinstance(v, bool) and float(v) == v and abs(v) < 2 ** 53:
+                        fa = fb = True
             if not (self.fmode == "fp" and fa and fb):
                 x = self._exact_real(a)
                 y = self._exact_real(b)
